@@ -160,6 +160,10 @@ def property_checks(inp):
             m0 = numpy.array([(ps * hs ** k).sum() for k in range(2 * L - 1)])
             m1 = numpy.array([((cm / 100e-15) * (hm / 10000.) ** k).sum() for k in range(2 * L - 1)])
             A(("GCTM reproduces the first 2L-1 moments to optimiser accuracy", float(numpy.max(numpy.abs(m1 / m0 - 1))), 0.15))
+            if inp.get("kind") == "gctm-ground":
+                # a ground layer at exactly 0 m alone in the lowest slab: the optimiser starts ON the bound h = 0 and still
+                # converges (worst misfit on the unchanged tree over 469 such profiles: 3.4e-3)
+                A(("GCTM converges when the lowest slab holds only a ground layer at 0 m (L <= 4)", float(numpy.max(numpy.abs(m1 / m0 - 1))), 0.03))
     return out
 
 
@@ -193,6 +197,15 @@ def falsify(ctx, deep=False):
             N = 24
             inp.update({"kind": "int-heights", "h": (numpy.arange(N) * 250).tolist(), "h_int": True, "p": (rng.nprng().uniform(0.05, 1.0, size=N) * 1e-13).tolist(),
                         "w": [10.0] * N, "L": 4, "og": True, "Lg": 4, "R": 3, "gctm": False})
+        if i in (4, 6):
+            npr_ = rng.nprng(); n_ = rng.randint(6, 14); L_ = rng.randint(2, 4)
+            for _try in range(50):
+                hg_ = numpy.concatenate([[0.0], numpy.sort(npr_.uniform(4000, 20000, size=n_))])
+                ed_ = hg_.max() / L_ * numpy.arange(L_)
+                if len(numpy.unique(numpy.digitize(hg_, ed_))) == L_ and (hg_ < ed_[1]).sum() == 1:
+                    break
+            pg_ = npr_.uniform(0.05, 1.0, size=n_ + 1) * 1e-13; pg_[0] *= rng.choice([1, 5, 20])
+            inp.update({"kind": "gctm-ground", "h": hg_.tolist(), "h_int": False, "p": pg_.tolist(), "w": [10.0] * (n_ + 1), "L": L_, "og": False, "gctm": True})
         if i in (1, 2):
             # moment-conserving method on a profile whose lowest layer is not at height 0 (heights above sea level)
             N = 12 + 3 * i
